@@ -257,3 +257,9 @@ def run(ctx: Ctx, rep: Report, tier: str):
     c.t5()
     c.t6()
     c.t7()
+    from rules.common import alias, refresh_stamp_after_fetch
+    from rules.C07 import C07
+    rep.rule("C10.T8", "a refresh that fails is retried: SyncEntry.get_latest stores the refresh stamp only after the provider refresh returned", 1)
+    refresh_stamp_after_fetch(ctx, rep, "C10.T8")
+    alias(rep, ["C07.R6"], "C10.T9", "a download interrupted by a transient failure leaves nothing under the final temp name (bytes go to a '.tmp' sibling, published by "
+          "rename after provider.download returned - C07.R6): the retry downloads again instead of uploading a truncated file", 2, lambda: C07(ctx, rep).r6())
